@@ -133,6 +133,10 @@ func (ex *Exec) callFn(st *State, fr *Frame, x *ssa.Call, fn *ssa.Function, bind
 	if len(c.Params) > 0 {
 		names = c.Params
 	}
+	if c.Options["self"] == "recv" && len(names) > 0 {
+		// a contract instantiated from an interface contract's text speaks about the receiver as `self`
+		names = append([]string{"self"}, names[1:]...)
+	}
 	sig := fn.Signature
 	ex.pendingParamTypes = nil
 	for _, p := range fn.Params {
